@@ -1,5 +1,5 @@
 #!/bin/sh
 # regenerates _CoqProject (file list) and the Makefile; full .vo builds only.
 cd "$(dirname "$0")"
-{ echo "-Q . MRS"; echo "-arg -w -arg -notation-overridden,-deprecated-hint-without-locality,-deprecated-instance-without-locality"; find Model Spec Proofs Props Extract -name '*.v' | sort; } > _CoqProject.new
+{ echo "-Q . MRS"; echo "-arg -w -arg -notation-overridden,-deprecated-hint-without-locality,-deprecated-instance-without-locality"; find Model Spec Proofs Props -name '*.v' | sort; } > _CoqProject.new
 if ! cmp -s _CoqProject.new _CoqProject; then mv _CoqProject.new _CoqProject; coq_makefile -f _CoqProject -o Makefile >/dev/null; else rm _CoqProject.new; [ -f Makefile ] || coq_makefile -f _CoqProject -o Makefile >/dev/null; fi
